@@ -6,6 +6,10 @@ pcorr : pair_correlation_2d/3d (explicit boundary, fraction=1, default max_rel_n
         (b) a brute-force oracle whose 2-D edge correction is computed by angle-interval
             arithmetic, independent of the code's formulas (tolerance 1e-6),
         (c) the code itself on a permuted and on a translated copy (tolerance 1e-9).
+gr    : the public signatures with all keyword options on inhomogeneous point sets against a
+        brute-force g(r) over ALL pairs within the cutoff (2-D arcs by vectorised angle-interval
+        arithmetic, 3-D areas from the code's own area_3d_bounded); the documented RuntimeError
+        "too many particle pairs" is answered by doubling max_rel_ndensity and must be justified.
 arc   : arclen_2d_bounded against angle-interval arithmetic (1e-6 of the full circle),
         area_3d_bounded against slice quadrature (1e-4 of the full sphere; supporting evidence).
 arcfn : function mode for the 2-D edge correction: circle_cap_arclen, circle_corner_arclen and
